@@ -1,0 +1,17 @@
+//go:build verif
+// +build verif
+
+package kubernetes
+
+import "time"
+
+// VerifAge moves every remembered "not ready since" instant d into the past, as if d had passed (Replicas reads the
+// wall clock directly). Only with the "verif" build tag.
+func (g *ReplicasManager) VerifAge(d time.Duration) {
+	for name, t := range g.stsUpdatedTime {
+		if t != nil {
+			nt := t.Add(-d)
+			g.stsUpdatedTime[name] = &nt
+		}
+	}
+}
